@@ -215,6 +215,13 @@ func (r *c16Rig) Send(sender, tag string) (uint64, error) {
 	return n, nil
 }
 
+// SendFailing: localChannel.Send has no error path after nextSeqno (broadcastMessage
+// never fails); the target says so (CanFailPublish = false) and this is never called.
+func (r *c16Rig) SendFailing(sender, tag string) (uint64, error) {
+	r.t.Fatalf("the local channel has no failing publication")
+	return 0, nil
+}
+
 func (r *c16Rig) SimSend(sender, tag string) uint64 {
 	r.mu.Lock()
 	r.simNext[sender]++
